@@ -52,3 +52,9 @@ Definition code_labels_quantity : list (list N) := [[107; 109; 111; 108]; [109; 
 Definition code_labels_density : list (list N) := [[107; 77]; [77]; [100; 77]; [99; 77]; [109; 77]; [181; 77]; [110; 77]; [112; 77]; [102; 77]; [109; 77]]%N.   (* kM M dM cM mM µM nM pM fM mM *)
 
 Definition code_labels_volume : list (list N) := [[107; 76]; [76]; [109; 76]; [181; 76]; [110; 76]; [112; 76]; [102; 76]]%N.   (* kL L mL µL nL pL fL *)
+
+(* parse_units: get_volume_fundamental_unit (litre symbol -> space symbol, cubed) *)
+Definition code_volume_chain : list (list N * list N) := [([107; 76], [109]); ([76], [100; 109]); ([109; 76], [99; 109]); ([181; 76], [109; 109]); ([110; 76], [100; 109; 109]); ([112; 76], [99; 109; 109]); ([102; 76], [181; 109])]%N.
+
+(* parse_units: get_concentration_fundamental_units (molar symbol -> amount symbol, space symbol cubed) *)
+Definition code_molar_chain : list (list N * (list N * list N)) := [([107; 77], ([107; 109; 111; 108], [100; 109])); ([77], ([109; 111; 108], [100; 109])); ([100; 77], ([100; 109; 111; 108], [100; 109])); ([99; 77], ([99; 109; 111; 108], [100; 109])); ([109; 77], ([109; 109; 111; 108], [100; 109])); ([181; 77], ([181; 109; 111; 108], [100; 109])); ([110; 77], ([110; 109; 111; 108], [100; 109])); ([112; 77], ([112; 109; 111; 108], [100; 109])); ([102; 77], ([102; 109; 111; 108], [100; 109]))]%N.
